@@ -204,8 +204,19 @@ func TestC08DialFallback(t *testing.T) {
 	go sp.serve()
 	scripts := [][]string{{"accept"}, {"junk", "accept"}, {"junk", "junk", "accept"}, {"close"}}
 	ncell := 0
-	for bits := 0; bits < 64; bits++ {
-		o := opts(bits)
+	// 64 raw option sets, then the four the command line can produce
+	// (-prefer-encryption, -force-encryption through crypto.DefaultOptions):
+	// for those the user's words are the policy
+	for bits := 0; bits < 68; bits++ {
+		var o crypto.Options
+		userForce, user := false, false
+		if bits < 64 {
+			o = opts(bits)
+		} else {
+			user = true
+			userForce = bits&2 != 0
+			o = *crypto.DefaultOptions(bits&1 != 0, userForce)
+		}
 		for si, script := range scripts {
 			x, err := sim.Build(sim.Geometry{PieceSize: 16384, Length: 32768, Seed: uint64(1000 + bits*8 + si)}, "socks5://"+ln.Addr().String())
 			if err != nil {
@@ -240,6 +251,16 @@ func TestC08DialFallback(t *testing.T) {
 					t.Fatalf("a plain handshake was attempted although the options force the encrypted one\n%s", where)
 				}
 			}
+			if user && userForce {
+				for _, a := range seen {
+					if a.kind == "plain" {
+						t.Fatalf("force-encryption is set (DefaultOptions(prefer=%v, force=true)), yet a plain handshake was attempted\n%s", bits&1 != 0, where)
+					}
+				}
+				if len(peers) > 0 && !peers[0].Encrypted() {
+					t.Fatalf("force-encryption is set, yet a peer was attached over an unencrypted connection\n%s", where)
+				}
+			}
 			if len(seen) > 2 {
 				t.Fatalf("more than two attempts\n%s", where)
 			}
@@ -257,6 +278,9 @@ func TestC08DialFallback(t *testing.T) {
 				}
 			}
 			labels := []string{"dial-cell", fmt.Sprintf("dial-attempts:%d", len(seen))}
+			if user {
+				labels = append(labels, "dial-user-level-options")
+			}
 			if len(seen) == 2 {
 				labels = append(labels, "dial-fallback:"+seen[0].kind+"->"+seen[1].kind)
 			}
@@ -267,7 +291,7 @@ func TestC08DialFallback(t *testing.T) {
 			ncell++
 		}
 	}
-	stats.Exhaustive("DialClient: 64 option sets x 4 peer scripts")
+	stats.Exhaustive("DialClient: (64 raw option sets + the 4 command-line policies) x 4 peer scripts")
 	_ = bytes.Equal
 	_ = crypto.DefaultOptions
 }
